@@ -10,7 +10,11 @@
 //! A script (one JSON object per line, produced by TLC from spec/OnionMC.tla) fixes the *shape* of
 //! a run: number of onion hops `n`, number of blinded hops `b`, the byte-length classes of the
 //! amount / expiry carried for every leg, the recipient fields and their sizes, and the operation
-//! (deliver | corrupt field before hop i | fail at hop k with code class and data length | fulfil).
+//! (deliver | corrupt field before hop i | fail at hop k | fulfil). A failure is given either as a code
+//! class + data length (code and data bytes drawn here) or exactly: `codeval` = the failure code,
+//! `head` = the first bytes of the failure data (the fixed-size fields of the BOLT 4 message and the
+//! channel_update length, enumerated by the model over their magnitudes), `tail` = number of
+//! arbitrary bytes that follow.
 //! Concrete values (amounts, heights, channel ids, keys, flipped bit, hold times) are drawn from
 //! the seeded generator.
 
@@ -47,6 +51,7 @@ use vharness::trace::TraceWriter;
 const MAX_NODES: usize = 30;
 const MIN_DELTA: u32 = 48; // channelmanager::MIN_CLTV_EXPIRY_DELTA
 const MAX_MSAT: u64 = 21_000_000 * 100_000_000 * 1000;
+const HEAD_LEN: usize = 12; // Onion!HeadLen
 
 struct NullLogger;
 impl Logger for NullLogger {
@@ -96,9 +101,22 @@ struct Op {
 	#[serde(default)]
 	field: String, // version | pubkey | hop_data | hmac | payment_hash
 	#[serde(default)]
-	code: String, // node_temp | node_perm | perm | update | plain | recipient
+	code: String, // node_temp | node_perm | perm | update | plain | recipient (label of the form otherwise)
 	#[serde(default)]
 	dlen: usize,
+	/// exact failure code, -1 = draw one of class `code`
+	#[serde(default = "neg1")]
+	codeval: i64,
+	/// first bytes of the failure data (only with codeval >= 0)
+	#[serde(default)]
+	head: Vec<u8>,
+	/// number of arbitrary bytes after `head` (only with codeval >= 0)
+	#[serde(default)]
+	tail: usize,
+}
+
+fn neg1() -> i64 {
+	-1
 }
 
 #[derive(Deserialize, Clone, Debug)]
@@ -901,9 +919,18 @@ fn run_case(net: &Net, c: &Case, run: u64, rng: &mut StdRng, tw: &mut TraceWrite
 		if secrets.len() < k {
 			return;
 		}
-		let code = code_for(rng, &op.code);
-		let mut data = vec![0u8; op.dlen];
-		rng.fill(&mut data[..]);
+		let (code, data) = if op.codeval >= 0 {
+			let mut d = op.head.clone();
+			let mut t = vec![0u8; op.tail];
+			rng.fill(&mut t[..]);
+			d.extend_from_slice(&t);
+			(op.codeval as u16, d)
+		} else {
+			let code = code_for(rng, &op.code);
+			let mut d = vec![0u8; op.dlen];
+			rng.fill(&mut d[..]);
+			(code, d)
+		};
 		let hold = |rng: &mut StdRng| -> u32 {
 			match rng.gen_range(0..4) {
 				0 => 0,
@@ -915,7 +942,9 @@ fn run_case(net: &Net, c: &Case, run: u64, rng: &mut StdRng, tw: &mut TraceWrite
 		let mut pkt = hook::build_failure_packet(&secrets[k - 1], code, &data, h);
 		stats.evals += 1;
 		stats.fails += 1;
-		tw.emit(json!({"run": run, "ev": "fail", "hop": k, "code": code, "dlen": op.dlen, "hold": h,
+		// what the hop put into its message: code, length of the data and its first bytes
+		tw.emit(json!({"run": run, "ev": "fail", "hop": k, "code": code, "dlen": data.len(),
+			"head": data[..data.len().min(HEAD_LEN)].to_vec(), "hold": h,
 			"len": pkt.data.len(), "attr": pkt.attribution_data.is_some()}));
 		for i in (1..k).rev() {
 			let h = hold(rng);
@@ -1058,8 +1087,20 @@ fn random_script(rng: &mut StdRng) -> Script {
 		["deliver", "corrupt", "fail", "fail", "fulfill"][rng.gen_range(0..5)]
 	};
 	let at = rng.gen_range(1..=n);
-	let code = ["node_temp", "node_perm", "perm", "update", "plain", "recipient"][rng.gen_range(0..6)];
+	let code = ["node_temp", "node_perm", "perm", "update", "update", "plain", "recipient"][rng.gen_range(0..7)];
 	let code = if code == "recipient" && at != n { "perm" } else { code };
+	let dlen = match rng.gen_range(0..6) {
+		0 => 0,
+		1 => rng.gen_range(1..40),
+		2 => [253usize, 254, 255, 256][rng.gen_range(0..4)],
+		3 => rng.gen_range(256..1200),
+		_ => rng.gen_range(0..12),
+	};
+	let (codeval, head, tail) = match code {
+		"update" => random_update(rng),
+		"recipient" => random_recipient(rng),
+		_ => (-1, Vec::new(), 0),
+	};
 	Script {
 		n,
 		b,
@@ -1071,14 +1112,92 @@ fn random_script(rng: &mut StdRng) -> Script {
 			at,
 			field: ["version", "pubkey", "hop_data", "hop_data", "hmac", "payment_hash"][rng.gen_range(0..6)].to_string(),
 			code: code.to_string(),
-			dlen: match rng.gen_range(0..6) {
-				0 => 0,
-				1 => rng.gen_range(1..40),
-				2 => [253usize, 254, 255, 256][rng.gen_range(0..4)],
-				3 => rng.gen_range(256..1200),
-				_ => rng.gen_range(0..12),
-			},
+			dlen: if codeval >= 0 { head.len() + tail } else { dlen },
+			codeval,
+			head,
+			tail,
 		},
+	}
+}
+
+/// a 32-bit value near a multiple of 2^16 / 2^24, a block height, or anything
+fn random_u32(rng: &mut StdRng) -> u32 {
+	match rng.gen_range(0..6) {
+		0 => rng.gen_range(0..70_000),
+		1 => (rng.gen_range(1..=0xffffu32) << 16).wrapping_add(rng.gen_range(0..3)).wrapping_sub(1),
+		2 => (rng.gen_range(1..=0xffu32) << 24).wrapping_add(rng.gen_range(0..3)).wrapping_sub(1),
+		3 => rng.gen_range(300_000..1_200_000),
+		4 => 500_000_000 - rng.gen_range(0..3),
+		_ => rng.gen(),
+	}
+}
+
+/// a 64-bit value of a random byte length (so that every byte is the leading one sometimes)
+fn random_u64(rng: &mut StdRng) -> u64 {
+	let c = rng.gen_range(1..=8);
+	match rng.gen_range(0..4) {
+		0 => rng.gen_range(0..100_000),
+		1 => MAX_MSAT - rng.gen_range(0..2),
+		_ => rand_in_class(rng, c, u64::MAX),
+	}
+}
+
+/// An UPDATE failure message (BOLT 4): fixed fields of the code, [u16:len], channel_update -- well
+/// formed, truncated, with a length that overruns the data, or followed by further bytes.
+fn random_update(rng: &mut StdRng) -> (i64, Vec<u8>, usize) {
+	const UPDATE: i64 = 0x1000;
+	let c = [7i64, 11, 12, 13, 14, 20, 111][rng.gen_range(0..7)];
+	let mut head: Vec<u8> = match c {
+		11 | 12 => random_u64(rng).to_be_bytes().to_vec(),
+		13 => random_u32(rng).to_be_bytes().to_vec(),
+		20 => (random_u32(rng) as u16).to_be_bytes().to_vec(),
+		_ => Vec::new(),
+	};
+	let ulen: usize = match rng.gen_range(0..6) {
+		0 | 1 => 0,
+		2 => rng.gen_range(1..8),
+		3 => rng.gen_range(120..180),
+		4 => rng.gen_range(240..270),
+		_ => rng.gen_range(0..1100),
+	};
+	match rng.gen_range(0..8) {
+		0 => {
+			// truncated somewhere before the end of the length field
+			head.extend_from_slice(&(ulen as u16).to_be_bytes());
+			let cut = rng.gen_range(0..head.len());
+			head.truncate(cut);
+			(UPDATE | c, head, 0)
+		},
+		1 => {
+			// fewer bytes than announced
+			let claimed = ulen + rng.gen_range(1..300usize);
+			head.extend_from_slice(&(claimed as u16).to_be_bytes());
+			(UPDATE | c, head, ulen)
+		},
+		2 => {
+			// more bytes than announced
+			head.extend_from_slice(&(ulen as u16).to_be_bytes());
+			(UPDATE | c, head, ulen + rng.gen_range(1..40usize))
+		},
+		_ => {
+			head.extend_from_slice(&(ulen as u16).to_be_bytes());
+			(UPDATE | c, head, ulen)
+		},
+	}
+}
+
+/// A message only the recipient sends, with its BOLT 4 data.
+fn random_recipient(rng: &mut StdRng) -> (i64, Vec<u8>, usize) {
+	match rng.gen_range(0..5) {
+		0 => {
+			let mut h = random_u64(rng).to_be_bytes().to_vec();
+			h.extend_from_slice(&random_u32(rng).to_be_bytes());
+			(0x4000 | 15, h, 0)
+		},
+		1 => (18, random_u32(rng).to_be_bytes().to_vec(), 0),
+		2 => (19, random_u64(rng).to_be_bytes().to_vec(), 0),
+		3 => (23, Vec::new(), 0),
+		_ => (-1, Vec::new(), 0),
 	}
 }
 
@@ -1089,7 +1208,8 @@ fn script_json(s: &Script) -> Value {
 		"final": {"secret": s.fin_fields.secret, "tlen": s.fin_fields.tlen, "meta": s.fin_fields.meta,
 			"customs": s.fin_fields.customs.iter().map(|c| json!({"tl": c.tl, "len": c.len})).collect::<Vec<_>>(),
 			"keysend": s.fin_fields.keysend},
-		"op": {"kind": s.op.kind, "at": s.op.at, "field": s.op.field, "code": s.op.code, "dlen": s.op.dlen}})
+		"op": {"kind": s.op.kind, "at": s.op.at, "field": s.op.field, "code": s.op.code, "dlen": s.op.dlen,
+			"codeval": s.op.codeval, "head": s.op.head, "tail": s.op.tail}})
 }
 
 fn main() {
@@ -1160,7 +1280,16 @@ fn main() {
 				legs: vec![],
 				fin: Cls { a: 3, c: 3 },
 				fin_fields: FinalCls { secret: true, tlen: 3, meta: -1, customs: vec![], keysend: false },
-				op: Op { kind: "deliver".into(), at: 0, field: String::new(), code: String::new(), dlen: 0 },
+				op: Op {
+					kind: "deliver".into(),
+					at: 0,
+					field: String::new(),
+					code: String::new(),
+					dlen: 0,
+					codeval: -1,
+					head: Vec::new(),
+					tail: 0,
+				},
 			};
 			let path = std::env::temp_dir().join(format!("onion-probe-{}.ndjson", std::process::id()));
 			let mut tw = TraceWriter::create(path.to_str().unwrap());
